@@ -245,6 +245,9 @@ type SimNet struct {
 	Objects  map[string][]byte
 	Requests []string
 	FailAll  bool
+	// FailNext makes the next k requests fail (a transient outage); OnFault is told about each.
+	FailNext int
+	OnFault  func()
 	// Yield, when set, is called inside Get (a natural scheduling point for C09).
 	Yield func(site string)
 }
@@ -263,6 +266,16 @@ func (n *SimNet) Get(url string) ([]byte, error) {
 	}
 	if n.FailAll {
 		return nil, fmt.Errorf("simnet: network unreachable")
+	}
+	if n.FailNext > 0 {
+		n.FailNext--
+		if n.R != nil {
+			n.R.Fault("net-transient", "%s", shortURL(url))
+		}
+		if n.OnFault != nil {
+			n.OnFault()
+		}
+		return nil, fmt.Errorf("simnet: connection reset (transient)")
 	}
 	b, ok := n.Objects[url]
 	if !ok {
